@@ -22,6 +22,7 @@ def run(e, R, tier):
         L.r_wake_clear,
         L.r_own_resolve,
         L.r_drop_resolves,
+        L.r_cancel_safe,
         L.r_mgr_exit,
         L.r_nulled,
         L.r_mgr_self,
